@@ -303,9 +303,9 @@ func executeTable(c *an.Ctx, r *runnerRoles, rule string, exitCode bool) {
 	}
 	errVals := errOf(execCall)
 	type row struct {
-		name            string
-		err, ok, af     int // -1 any
-		next, errored   bool
+		name          string
+		err, ok, af   int // -1 any
+		next, errored bool
 	}
 	rows := []row{
 		{"err=nil", 0, -1, -1, true, false},
@@ -555,4 +555,3 @@ func runIsSynchronous(c *an.Ctx, r *runnerRoles, rule string) {
 		c.OK(rule, an.Short(r.run)+":synchronous", r.run.Pos(), "no go statement between TaskRunner.Run and Executor.Execute (%d functions)", len(reach))
 	}
 }
-
